@@ -69,6 +69,7 @@ pub struct CoreSpec {
     pub h2: bool,
     pub quic: bool,
     pub h2_stream_window: Option<u32>,
+    pub h2_conn_window: Option<u32>,
     pub listen: SocketAddr,
     pub allow_private: bool,
     pub ipv6_available: bool,
@@ -100,6 +101,7 @@ impl Default for CoreSpec {
             h2: true,
             quic: false,
             h2_stream_window: None,
+            h2_conn_window: None,
             listen: "127.0.0.1:1".parse().unwrap(),
             allow_private: true,
             ipv6_available: true,
@@ -139,6 +141,9 @@ impl CoreSpec {
                     let mut b = Http2Settings::builder();
                     if let Some(w) = self.h2_stream_window {
                         b = b.initial_stream_window_size(w);
+                    }
+                    if let Some(w) = self.h2_conn_window {
+                        b = b.initial_connection_window_size(w);
                     }
                     b.build()
                 }),
